@@ -451,3 +451,760 @@ def rule_typed(ctx):
     pc4 = domain_problems('(R == S)', ('f', 32), 'float', [0.1], {})
     r.positive_control(bool(pc1) and bool(pc2) and not pc3 and bool(pc4), 'uncast sentinel on unsigned char / float, narrowing cast on int; the cast form passes')
     return r
+
+
+# ====================================================================================== fourth round: the declaration side
+"""C32-PARSE   p_exception_value_clause, interpreted on a model scanner for every clause shape of the grammar
+              (nothing, noexcept, except v, except? v, except *, except +, except +*, except +Name) x (extern, own):
+              the (value?, check, explicit) triple equals the language table.
+C32-DECL    CFuncDeclaratorNode.analyse over (clause kind x return kind x default error value of the return type x extern /
+              pxd / cdef-class / pointer declarator x legacy_implicit_noexcept): the exception_check / exception_value handed
+              to CFuncType: explicit clauses are preserved, an implicit error value is only ever installed together with
+              the PyErr_Occurred() check, legacy noexcept never overrides an explicit clause.
+C32-COMPAT  CFuncType._is_exception_compatible_with / _same_exception_value as a decision table over callee
+              specification S x declared (caller-side) specification O, compared with the semantics of the call-side test:
+              O=except *: any S; O=noexcept: only S=noexcept; O=except v: only S=except v; O=except? v: S in {noexcept, except v, except? v}.
+C32-TEMP    SimpleCallNode.analyse_c_function_call marks the call as a temp (the only form for which generate_result_code emits
+              the error test) whenever the function type has an exception value or an exception check.
+C32-ERRGIL  the error exit of FuncDefNode.generate_function_definitions ensures the GIL (assure_gil('error')) before it emits
+              put_add_traceback / put_unraisable.
+C32-ARGNAME an argument of an emitted call to a C32 helper whose Python name is the name of one of the helper's C parameters sits
+              at that parameter's position."""
+PARSING = 'Cython/Compiler/Parsing.py'
+NODES = 'Cython/Compiler/Nodes.py'
+EXPRNODES = 'Cython/Compiler/ExprNodes.py'
+
+
+class _Return(Exception):
+    def __init__(self, v):
+        self.v = v
+
+
+class Opaque:
+    def __init__(self, what):
+        self.what = what
+
+    def __repr__(self):
+        return '<%s>' % self.what
+
+
+class ModelScanner:
+    """The part of PyrexScanner that p_exception_value_clause uses: current token (sy, systring), next(), position()."""
+
+    def __init__(self, tokens):
+        self.tokens, self.i, self.errors = list(tokens) + [('NEWLINE', '')], 0, []
+
+    @property
+    def sy(self):
+        return self.tokens[self.i][0]
+
+    @property
+    def systring(self):
+        return self.tokens[self.i][1]
+
+    def next(self):
+        if self.i < len(self.tokens) - 1:
+            self.i += 1
+
+    def position(self):
+        return ('<model>', 1, 10 + 2 * self.i)         # column grows with the token index, a gap between tokens
+
+
+class Mini:
+    """A tiny concrete interpreter for table-like Python functions, run on MODEL objects that belong to the checker.
+    Attribute reads / method calls are only performed on instances of the classes in `models`; calls of repository
+    functions are answered by `calls` (name -> python callable on the model); everything else raises ANALYSIS-ERROR."""
+
+    def __init__(self, models, calls, what):
+        self.models, self.calls, self.what = tuple(models), calls, what
+
+    def run(self, fn, args):
+        env = dict(args)
+        try:
+            self.block(fn.body, env)
+        except _Return as r:
+            return r.v
+        return None
+
+    def block(self, stmts, env):
+        for s in stmts:
+            self.stmt(s, env)
+
+    def stmt(self, s, env):
+        if isinstance(s, ast.Expr):
+            if isinstance(s.value, ast.Constant):
+                return
+            self.ev(s.value, env)
+        elif isinstance(s, (ast.Assign, ast.AnnAssign)):
+            v = self.ev(s.value, env) if s.value is not None else None
+            targets = s.targets if isinstance(s, ast.Assign) else [s.target]
+            for t in targets:
+                if isinstance(t, ast.Name):
+                    env[t.id] = v
+                elif isinstance(t, ast.Tuple) and isinstance(v, tuple) and len(v) == len(t.elts) and all(isinstance(x, ast.Name) for x in t.elts):
+                    for x, y in zip(t.elts, v):
+                        env[x.id] = y
+                else:
+                    raise AnalysisError('%s: assignment %s is not modelled' % (self.what, ast.unparse(s)[:60]))
+        elif isinstance(s, ast.If):
+            self.block(s.body if self.truth(self.ev(s.test, env)) else s.orelse, env)
+        elif isinstance(s, ast.Return):
+            raise _Return(self.ev(s.value, env) if s.value is not None else None)
+        elif isinstance(s, ast.Pass):
+            pass
+        elif isinstance(s, ast.For) and not s.orelse:
+            seq = self.ev(s.iter, env)
+            if not isinstance(seq, (list, tuple)):
+                raise AnalysisError('%s: loop over %s is not modelled' % (self.what, ast.unparse(s.iter)[:60]))
+            for x in seq:
+                self._bind(s.target, x, env)
+                self.block(s.body, env)
+        else:
+            raise AnalysisError('%s: statement %s is not modelled' % (self.what, ast.unparse(s)[:60]))
+
+    def _bind(self, t, v, env):
+        if isinstance(t, ast.Name):
+            env[t.id] = v
+        elif isinstance(t, (ast.Tuple, ast.List)) and isinstance(v, (tuple, list)) and len(v) == len(t.elts):
+            for x, y in zip(t.elts, v):
+                self._bind(x, y, env)
+        else:
+            raise AnalysisError('%s: binding %s is not modelled' % (self.what, ast.unparse(t)[:60]))
+
+    @staticmethod
+    def truth(v):
+        if isinstance(v, Opaque):
+            return True
+        return bool(v)
+
+    def ev(self, e, env):
+        if isinstance(e, ast.Constant):
+            return e.value
+        if isinstance(e, ast.Name):
+            if e.id in env:
+                return env[e.id]
+            if e.id in self.calls:
+                return ('#callable', e.id)
+            return Opaque(e.id)
+        if isinstance(e, ast.Tuple):
+            return tuple(self.ev(x, env) for x in e.elts)
+        if isinstance(e, ast.Attribute):
+            base = self.ev(e.value, env)
+            if isinstance(base, self.models):
+                return getattr(base, e.attr)
+            if isinstance(base, Opaque):
+                return Opaque('%s.%s' % (base.what, e.attr))
+            raise AnalysisError('%s: attribute %s of %r is not modelled' % (self.what, e.attr, base))
+        if isinstance(e, ast.Subscript):
+            base, idx = self.ev(e.value, env), self.ev(e.slice, env)
+            if isinstance(base, (tuple, list)) and isinstance(idx, int):
+                return base[idx]
+            if isinstance(base, dict) and idx in base:
+                return base[idx]
+            raise AnalysisError('%s: subscript %s is not modelled' % (self.what, ast.unparse(e)[:60]))
+        if isinstance(e, ast.JoinedStr):
+            out = []
+            for v in e.values:
+                if isinstance(v, ast.Constant):
+                    out.append(v.value)
+                else:
+                    x = self.ev(v.value, env)
+                    if isinstance(x, Opaque):
+                        raise AnalysisError('%s: opaque value in emitted text %s' % (self.what, ast.unparse(e)[:60]))
+                    spec = self.ev(v.format_spec, env) if v.format_spec is not None else ''
+                    out.append(format(int(x) if spec.endswith('d') else x, spec))
+            return ''.join(out)
+        if isinstance(e, ast.BinOp) and isinstance(e.op, ast.Mod):
+            a, b = self.ev(e.left, env), self.ev(e.right, env)
+            if isinstance(a, str):
+                args = b if isinstance(b, tuple) else (b,)
+                if any(isinstance(x, Opaque) for x in args):
+                    raise AnalysisError('%s: opaque value in emitted text %s' % (self.what, ast.unparse(e)[:60]))
+                return a % args
+        if isinstance(e, ast.List):
+            return [self.ev(x, env) for x in e.elts]
+        if isinstance(e, ast.UnaryOp) and isinstance(e.op, ast.Not):
+            return not self.truth(self.ev(e.operand, env))
+        if isinstance(e, ast.BoolOp):
+            v = None
+            for x in e.values:
+                v = self.ev(x, env)
+                if isinstance(e.op, ast.And) and not self.truth(v):
+                    return v
+                if isinstance(e.op, ast.Or) and self.truth(v):
+                    return v
+            return v
+        if isinstance(e, ast.IfExp):
+            return self.ev(e.body if self.truth(self.ev(e.test, env)) else e.orelse, env)
+        if isinstance(e, ast.BinOp) and isinstance(e.op, (ast.Add, ast.Sub)):
+            a, b = self.ev(e.left, env), self.ev(e.right, env)
+            if isinstance(a, int) and isinstance(b, int):
+                return a + b if isinstance(e.op, ast.Add) else a - b
+            raise AnalysisError('%s: arithmetic %s is not modelled' % (self.what, ast.unparse(e)[:60]))
+        if isinstance(e, ast.Compare) and len(e.ops) == 1:
+            a, b = self.ev(e.left, env), self.ev(e.comparators[0], env)
+            op = e.ops[0]
+            if isinstance(a, Opaque) or isinstance(b, Opaque):
+                if isinstance(op, (ast.Is, ast.IsNot)) and (a is None or b is None):
+                    return isinstance(op, ast.IsNot)
+                raise AnalysisError('%s: comparison %s on an opaque value' % (self.what, ast.unparse(e)[:60]))
+            if isinstance(op, (ast.Eq, ast.NotEq)):
+                return (a == b) == isinstance(op, ast.Eq)
+            if isinstance(op, (ast.Is, ast.IsNot)):
+                return (a is b or a == b and isinstance(a, (bool, int, str, type(None)))) == isinstance(op, ast.Is)
+            if isinstance(op, (ast.In, ast.NotIn)) and isinstance(b, (tuple, str)):
+                return (a in b) == isinstance(op, ast.In)
+            raise AnalysisError('%s: comparison %s is not modelled' % (self.what, ast.unparse(e)[:60]))
+        if isinstance(e, ast.Call):
+            f = self.ev(e.func, env)
+            args = [self.ev(a, env) for a in e.args]
+            kwargs = {k.arg: self.ev(k.value, env) for k in e.keywords}
+            if callable(f) and getattr(f, '__self__', None) is not None and isinstance(f.__self__, self.models):
+                return f(*args, **kwargs)
+            if isinstance(f, tuple) and f and f[0] == '#callable':
+                return self.calls[f[1]](*args, **kwargs)
+            if isinstance(f, Opaque) and f.what in ('enumerate', 'zip', 'int', 'bool', 'len', 'list', 'range') and f.what not in self.calls and \
+                    all(isinstance(a, (list, tuple, int, bool, str)) for a in args):
+                return {'enumerate': lambda *a: list(enumerate(*a)), 'zip': lambda *a: list(zip(*a)), 'int': int, 'bool': bool, 'len': len, 'list': list, 'range': lambda *a: list(range(*a))}[f.what](*args)
+            if isinstance(f, Opaque):
+                name = f.what
+                if name in self.calls:
+                    return self.calls[name](*args, **kwargs)
+                raise AnalysisError('%s: call of %s is not modelled' % (self.what, name))
+            raise AnalysisError('%s: call %s is not modelled' % (self.what, ast.unparse(e)[:60]))
+        raise AnalysisError('%s: expression %s is not modelled' % (self.what, ast.unparse(e)[:60]))
+
+
+CLAUSES = [     # (name, tokens, expected value kind, expected check ('default' = depends on extern), explicit clause)
+    ('nothing', [], None, 'default', False),
+    ('noexcept', [('IDENT', 'noexcept')], None, False, True),
+    ('except v', [('except', 'except'), ('INT', '-1')], 'expr', False, True),
+    ('except? v', [('except', 'except'), ('?', '?'), ('INT', '-1')], 'expr', True, True),
+    ('except *', [('except', 'except'), ('*', '*')], None, True, True),
+    ('except +', [('except', 'except'), ('+', '+')], None, '+', True),
+    ('except +*', [('except', 'except'), ('+', '+'), ('*', '*')], 'char*', '+', True),
+    ('except +Name', [('except', 'except'), ('+', '+'), ('IDENT', 'MemoryError')], 'name', '+', True),
+]
+
+
+def parse_clause_rows(fn):
+    rows = []
+    for cname, toks, want_val, want_check, want_clause in CLAUSES:
+        for is_extern in (False, True):
+            s = ModelScanner(toks)
+
+            def p_test(sc):
+                sc.next()
+                return Opaque('expr')
+
+            def p_name(sc, name):
+                return Opaque('name')
+
+            def char_node(pos, value=None):
+                return Opaque('char' + str(value))
+
+            def error(pos, msg):
+                s.errors.append(msg)
+            mini = Mini((ModelScanner,), {'p_test': p_test, 'p_name': p_name, 'error': error, 'ExprNodes.CharNode': char_node}, 'p_exception_value_clause')
+            params = [a.arg for a in fn.args.args]
+            got = mini.run(fn, {params[0]: s, params[1]: is_extern})
+            rows.append((cname, is_extern, got, s, want_val, (not is_extern) if want_check == 'default' else want_check, want_clause))
+    return rows
+
+
+def parse_problems(fn):
+    probs, n = [], 0
+    for cname, is_extern, got, s, want_val, want_check, want_clause in parse_clause_rows(fn):
+        n += 1
+        where = '`%s` on %s function' % (cname, 'an extern' if is_extern else 'a cdef')
+        if not (isinstance(got, tuple) and len(got) == 3):
+            probs.append('%s: returns %r instead of (value, check, explicit)' % (where, got))
+            continue
+        val, check, clause = got
+        kind = None if val is None else (val.what.replace('char*', 'char*') if isinstance(val, Opaque) else repr(val))
+        if kind == 'char*':
+            kind = 'char*'
+        if (kind or None) != want_val:
+            probs.append('%s: exception value is %s, expected %s' % (where, kind, want_val))
+        elif check != want_check or type(check) is not type(want_check):
+            probs.append('%s: exception_check is %r, the language table says %r (%s)' % (
+                where, check, want_check,
+                'the PyErr_Occurred() test after calls disappears, exceptions are hidden / a legitimate sentinel is taken for an error' if not check else
+                'callers test for an exception the declaration does not allow'))
+        elif bool(clause) != want_clause:
+            probs.append('%s: explicit-clause flag is %r' % (where, clause))
+        elif s.sy != 'NEWLINE':
+            probs.append('%s: the clause is not consumed completely (stops at %r)' % (where, s.systring))
+        elif s.errors:
+            probs.append('%s: reports an error: %s' % (where, s.errors[0]))
+    return n, probs
+
+
+def rule_parse(ctx):
+    r = Rule('C32-PARSE', 'p_exception_value_clause maps every clause shape (nothing, noexcept, except v, except? v, except *, except +, except +*, except +Name) x (extern, own) '
+                          'to the (value, check, explicit) triple of the language table', floor=14)
+    ix = ctx.index
+    fn = None
+    for qn, owner, f in ix.functions_of(ix.mod('Parsing')):
+        if qn == 'p_exception_value_clause':
+            fn = f
+    if fn is None:
+        raise AnalysisError('Parsing.p_exception_value_clause vanished')
+    n, probs = parse_problems(fn)
+    for i in range(n):
+        r.inst('parse:row%d' % i)
+    seen = set()
+    for pb in probs:
+        k = pb.split(':')[0].split(' on ')[0]
+        if k in seen:
+            continue
+        seen.add(k)
+        r.violate('Parsing.p_exception_value_clause:%s' % k.strip('`'), PARSING, fn.lineno, 'p_exception_value_clause, %s' % pb)
+    pc = ast.parse('''
+def p_exception_value_clause(s, is_extern):
+    exc_clause = False
+    exc_val = None
+    exc_check = False if is_extern else True
+    if s.sy == 'except':
+        exc_clause = True
+        s.next()
+        if s.sy == '*':
+            exc_check = False
+            s.next()
+        else:
+            exc_check = s.sy == '?'
+            if exc_check:
+                s.next()
+            exc_val = p_test(s)
+    return exc_val, exc_check, exc_clause
+''').body[0]
+    _, pp = parse_problems(pc)
+    r.positive_control(any('`except *`' in p for p in pp) and not any('`except? v`' in p or '`except v`' in p for p in pp), '`except *` parsed as unchecked')
+    return r
+
+
+# ---------------------------------------------------------------------------------------------- C32-DECL
+class _Localise(ast.NodeTransformer):
+    """self.exception_value / self.exception_check -> locals, so that the decision-table evaluator (which does not model the heap) follows their updates"""
+
+    def visit_Attribute(self, node):
+        self.generic_visit(node)
+        if isinstance(node.value, ast.Name) and node.value.id == 'self' and node.attr in ('exception_value', 'exception_check'):
+            return ast.copy_location(ast.Name(id='__self_' + node.attr, ctx=node.ctx), node)
+        return node
+
+
+def _root(v):
+    """the value at the root of a chain of method calls  x.a().b(c).d()"""
+    seen = 0
+    while isinstance(v, Call) and seen < 12:
+        seen += 1
+        if v.recv is not None:
+            v = v.recv
+        else:
+            break
+    return v
+
+
+class _ExcVal(Obj):
+    """result of <node>.as_exception_value(env): never None (ASSUMPTIONS of C32); remembers the node it was made from"""
+
+    def __init__(self, root):
+        Obj.__init__(self, 'exception value object', True)
+        self.root = root
+
+    def __eq__(self, other):
+        return other is self
+
+    def __hash__(self):
+        return id(self)
+
+
+class _DeclEval(Evaluator):
+    def _call(self, e, st):
+        v = Evaluator._call(self, e, st)
+        if isinstance(v, Call) and v.name == 'as_exception_value':
+            return _ExcVal(_root(v))
+        return v
+
+
+def decl_rows(fn):
+    """-> list of (point dict, [(exc_val kind, exc_check)] over the paths)"""
+    import copy
+    fn2 = _Localise().visit(copy.deepcopy(fn))
+    ast.fix_missing_locations(fn2)
+    rows = []
+    clause_kinds = [('none', None, True, False), ('none-extern', None, False, False), ('noexcept', None, False, True), ('except v', 'USER', False, True),
+                    ('except? v', 'USER', True, True), ('except *', None, True, True), ('except +', None, '+', True)]
+    for cname, val, check, explicit in clause_kinds:
+        for ret_obj in (False, True):
+            for ret_default in ((None,) if ret_obj else (None, -1)):
+                for extern, in_pxd, cclass, ptr, legacy in itertools.product((False, True), (False, True), (False, True), (False, True), (False, True)):
+                    if cname == 'none-extern' and not extern:
+                        continue
+                    if cname == 'none' and extern:
+                        continue          # the parser gives check=False for extern functions without a clause
+                    user = Fresh('user exception value') if val else None
+                    vis = 'extern' if extern else 'private'
+                    point = {'self.has_explicit_exc_clause': explicit, 'return_type.is_pyobject': ret_obj, 'return_type.exception_value': ret_default,
+                             'return_type.is_cfunction': False, 'return_type.is_int': not ret_obj, 'return_type.is_float': False,
+                             'visibility': vis, 'in_pxd': in_pxd, 'env.is_c_class_scope': cclass, "env.directives['legacy_implicit_noexcept']": legacy,
+                             'nonempty': 0, 'directive_locals': None, 'self.optional_arg_count': 0, "env.directives['callspec']": None,
+                             'func_type.return_type.is_rvalue_reference': False}
+
+                    def call_oracle(f, a, k, ptr=ptr):
+                        if f == 'isinstance' and len(a) == 2 and isinstance(a[1], Obj) and a[1].path == 'CPtrDeclaratorNode':
+                            return ptr
+                        if f == 'isinstance':
+                            return False
+                        if f == 'error' or f == 'warning':
+                            return None
+                        return NOTFOUND
+                    ev = _DeclEval(lambda p: point.get(p, NOTFOUND), call_oracle, what='CFuncDeclaratorNode.analyse')
+                    env = {'__self_exception_value': user, '__self_exception_check': check}
+                    for k2 in ('visibility', 'in_pxd', 'nonempty', 'directive_locals'):
+                        env[k2] = point[k2]
+                    outs = set()
+                    errors = False
+                    for p in ev.run_function(fn2, env):
+                        if p.kind == 'raise':
+                            continue
+                        errs = [e for e in p.events if isinstance(e, Call) and e.func == 'error' and e.args[1:] and isinstance(e.args[1], str) and 'xception' in e.args[1]]
+                        cf = [e for e in p.events if isinstance(e, Call) and e.name == 'CFuncType']
+                        if not cf:
+                            raise AnalysisError('C32-DECL: a path of CFuncDeclaratorNode.analyse builds no CFuncType')
+                        kw = cf[-1].kwargs
+                        if 'exception_value' not in kw or 'exception_check' not in kw:
+                            raise AnalysisError('C32-DECL: CFuncType(...) is no longer called with exception_value= / exception_check= keywords')
+                        v, c = kw['exception_value'], kw['exception_check']
+                        root = v.root if isinstance(v, _ExcVal) else _root(v)
+                        if v is None:
+                            vk = None
+                        elif root is user and user is not None:
+                            vk = 'user'
+                        elif isinstance(root, Call) and 'ConstNode' in root.func or (isinstance(root, Obj) and 'ConstNode' in (root.path or '')):
+                            vk = 'implicit'
+                        else:
+                            vk = 'other:%r' % (v,)
+                        if not isinstance(c, (bool, int, str)):
+                            raise AnalysisError('C32-DECL: exception_check handed to CFuncType is %r, not decided by the domain point %s' % (c, cname))
+                        outs.add((vk, c if c == '+' else bool(c), bool(errs)))
+                    rows.append((dict(point, clause=cname, ptr=ptr), outs))
+    return rows
+
+
+def decl_problems(fn):
+    probs, n = [], 0
+    for point, outs in decl_rows(fn):
+        n += 1
+        cname = point['clause']
+        obj, legacy, extern = point['return_type.is_pyobject'], point["env.directives['legacy_implicit_noexcept']"], point['visibility'] == 'extern'
+        desc = '%s, %s return%s%s%s%s%s' % (cname, 'object' if obj else 'C', ' with default error value -1' if point['return_type.exception_value'] is not None else '',
+                                       ', extern' if extern else '', ', in a pxd' if point['in_pxd'] else '', ', cdef class method' if point['env.is_c_class_scope'] else '',
+                                       ', legacy_implicit_noexcept' if legacy else '')
+        for vk, c, err in outs:
+            if err:
+                continue                    # a compile error is reported for this combination: no code is generated
+            if obj:
+                if c == '+':
+                    continue
+                if c or vk is not None:
+                    probs.append(('object', desc, 'an object-returning function gets exception_check=%r / value %s: callers test a sentinel although NULL already signals the error' % (c, vk)))
+                continue
+            implicit_noexcept = legacy and cname == 'none' and not extern
+            if cname in ('noexcept', 'none-extern') or implicit_noexcept:
+                if c or vk is not None:
+                    probs.append(('noexcept', desc, 'gets exception_check=%r, value %s instead of noexcept' % (c, vk)))
+            elif cname == 'except v':
+                if c is not False or vk != 'user':
+                    probs.append(('except v', desc, 'gets exception_check=%r, value %s instead of (declared value, no check)' % (c, vk)))
+            elif cname == 'except? v':
+                if c is not True or vk != 'user':
+                    probs.append(('except? v', desc, 'gets exception_check=%r, value %s instead of (declared value, check): %s' % (
+                        c, vk, 'a legitimate return of the sentinel raises SystemError' if not c else 'the declared sentinel is lost')))
+            elif cname in ('except *', 'none'):
+                if c is not True:
+                    probs.append((cname, desc, 'gets exception_check=%r (value %s): %s' % (
+                        c, vk, 'the implicit error value is tested WITHOUT PyErr_Occurred(), so every legitimate return of that value is taken for an error' if vk is not None
+                        else 'the function is treated as noexcept: its exceptions are printed as unraisable instead of propagating')))
+                elif vk == 'user' or (vk or '').startswith('other'):
+                    probs.append((cname, desc, 'gets the exception value %s out of nowhere' % vk))
+            elif cname == 'except +':
+                if c != '+':
+                    probs.append((cname, desc, 'gets exception_check=%r instead of "+"' % (c,)))
+    return n, probs
+
+
+def rule_decl(ctx):
+    r = Rule('C32-DECL', 'CFuncDeclaratorNode.analyse hands CFuncType the declared exception specification: explicit clauses unchanged, an implicit error value only together with the '
+                         'PyErr_Occurred() check, noexcept only when declared (or legacy_implicit_noexcept without an explicit clause)', floor=300)
+    ix = ctx.index
+    cls = ix.cls('Nodes', 'CFuncDeclaratorNode')
+    got = ix.find_method(cls, 'analyse')
+    if got is None:
+        raise AnalysisError('CFuncDeclaratorNode.analyse vanished')
+    n, probs = decl_problems(got[1])
+    for i in range(n):
+        r.inst('decl:row%d' % i)
+    seen = set()
+    for k, desc, what in probs:
+        if k in seen:
+            continue
+        seen.add(k)
+        r.violate('Nodes.CFuncDeclaratorNode.analyse:%s' % k, NODES, got[1].lineno, 'CFuncDeclaratorNode.analyse: a function declared with [%s] %s' % (desc, what))
+    pc = ast.parse('''
+def analyse(self, return_type, env, nonempty=0, directive_locals=None, visibility=None, in_pxd=False):
+    exc_val = None
+    exc_check = 0
+    if not return_type.is_pyobject:
+        if self.exception_value is None and self.exception_check and self.exception_check != '+':
+            if return_type.exception_value is not None:
+                self.exception_value = ConstNode.for_type(self.pos, value=str(return_type.exception_value), type=return_type)
+                self.exception_check = False
+        if self.exception_value is not None:
+            exc_val = self.exception_value.as_exception_value(env)
+        exc_check = self.exception_check
+    func_type = PyrexTypes.CFuncType(return_type, [], exception_value=exc_val, exception_check=exc_check)
+    return func_type
+''').body[0]
+    _, pp = decl_problems(pc)
+    r.positive_control(any(k in ('none', 'except *') for k, _, _ in pp) and not any(k in ('except v', 'except? v') for k, _, _ in pp),
+                       'implicit error value installed without the PyErr_Occurred() check')
+    return r
+
+
+# ---------------------------------------------------------------------------------------------- C32-COMPAT
+SPECS = [('noexcept', False, None), ('except v', False, 'v'), ('except w', False, 'w'), ('except? v', True, 'v'), ('except? w', True, 'w'), ('except *', True, None)]
+
+
+def compat_expected(S, O):
+    sc, sv = S[1], S[2]
+    oc, ov = O[1], O[2]
+    if oc and ov is None:                  # except *: PyErr_Occurred() after every call
+        return True
+    if not oc and ov is None:              # noexcept: no test at all
+        return not sc and sv is None
+    if not oc:                             # except v: sentinel test only
+        return (not sc) and sv == ov
+    return (sv == ov) or (not sc and sv is None)      # except? v
+
+
+def compat_table(ix):
+    cls = ix.cls('PyrexTypes', 'CFuncType')
+    got = ix.find_method(cls, '_is_exception_compatible_with')
+    same = ix.find_method(cls, '_same_exception_value')
+    if got is None or same is None:
+        raise AnalysisError('CFuncType._is_exception_compatible_with / _same_exception_value vanished')
+    fn, fsame = got[1], same[1]
+
+    def run(f, point, env):
+        def call_oracle(fp, a, k):
+            if fp == 'str' and len(a) == 1 and (a[0] is None or isinstance(a[0], (str, int))):
+                return str(a[0])
+            if fp == 'self._same_exception_value' and len(a) == 1:
+                res = run(fsame, point, {fsame.args.args[1].arg: a[0]})
+                if len(res) != 1:
+                    raise AnalysisError('C32-COMPAT: _same_exception_value is not decided for %s' % point)
+                return res.pop()
+            return NOTFOUND
+        ev = Evaluator(lambda p: point.get(p, NOTFOUND), call_oracle, what='CFuncType.' + f.name)
+        out = set()
+        for p in ev.run_function(f, env):
+            if p.kind == 'raise':
+                continue
+            v = p.ret if p.kind == 'return' else None
+            if not isinstance(v, (bool, int, type(None))):
+                raise AnalysisError('C32-COMPAT: %s returns %r for %s' % (f.name, v, point))
+            out.add(bool(v))
+        return out
+    other = fn.args.args[1].arg
+    rows = []
+    for S in SPECS + [('except +', '+', None)]:
+        for O in SPECS:
+            point = {'self.exception_check': S[1], 'self.exception_value': S[2], other + '.exception_check': O[1], other + '.exception_value': O[2]}
+            res = run(fn, point, {})
+            if len(res) != 1:
+                raise AnalysisError('C32-COMPAT: _is_exception_compatible_with is not decided for S=%s, O=%s' % (S[0], O[0]))
+            rows.append((S, O, res.pop()))
+    return fn, rows
+
+
+def rule_compat(ctx):
+    r = Rule('C32-COMPAT', 'CFuncType._is_exception_compatible_with (function pointer assignment, cmethod override): a callee specification S is accepted for a declared '
+                           'specification O only when O\'s call-side test detects exactly S\'s errors (decision table S x O)', floor=36)
+    fn, rows = compat_table(ctx.index)
+    seen = set()
+    for S, O, got in rows:
+        key = 'compat:%s->%s' % (S[0], O[0])
+        r.inst(key, sample='%s used as %s: %s' % (S[0], O[0], 'accepted' if got else 'rejected'))
+        want = False if S[1] == '+' else compat_expected(S, O)
+        if got and not want:
+            k = (S[0].replace(' w', ' v'), O[0].replace(' w', ' v'))
+            if k in seen:
+                continue
+            seen.add(k)
+            sc, sv, oc, ov = S[1], S[2], O[1], O[2]
+            if S[1] == '+':
+                why = 'C++ exceptions thrown by the callee are not translated by the caller'
+            elif not oc and ov is None:
+                why = 'calls through the declared type make no error test at all: the callee\'s exceptions are hidden'
+            elif sv != ov and sv is not None:
+                why = 'the caller tests for %s but the callee signals errors with %s: errors are missed and a legitimate %s fabricates one' % (ov, sv, ov)
+            elif sv is None:
+                why = 'the callee signals errors without the sentinel %s the caller tests for: its exceptions are hidden' % ov
+            else:
+                why = 'the caller tests only the sentinel, but the callee may return it legitimately (except?): a legitimate return fabricates an error (SystemError)'
+            r.violate('PyrexTypes.CFuncType._is_exception_compatible_with:%s->%s' % k, PYREX, fn.lineno,
+                      '_is_exception_compatible_with accepts a function declared `%s` where `%s` is declared (function pointer / overridden C method): %s' % (S[0], O[0], why))
+    r.positive_control(compat_expected(SPECS[3], SPECS[1]) is False and compat_expected(SPECS[0], SPECS[3]) is True, 'except? v is not usable as except v; noexcept is usable as except? v')
+    return r
+
+
+# ---------------------------------------------------------------------------------------------- C32-TEMP
+def rule_temp(ctx):
+    ix = ctx.index
+    r = Rule('C32-TEMP', 'SimpleCallNode.analyse_c_function_call makes the call a temp (the form whose generate_result_code emits the error test) whenever the function type has an '
+                         'exception value or an exception check', floor=3)
+    cls = ix.cls('ExprNodes', 'SimpleCallNode')
+    got = ix.find_method(cls, 'analyse_c_function_call')
+    gen = ix.find_method(cls, 'generate_result_code')
+    if got is None or gen is None:
+        raise AnalysisError('SimpleCallNode.analyse_c_function_call / generate_result_code vanished')
+    fn = got[1]
+    # the emitter is reached only under `self.is_temp`: confirm the coupling this rule relies on
+    coupled = False
+    for n in ast.walk(gen[1]):
+        if isinstance(n, ast.If) and 'self.is_temp' in ast.unparse(n.test) and any(isinstance(c, ast.Call) and getattr(c.func, 'id', getattr(c.func, 'attr', '')) == 'generate_cfunction_call' for c in ast.walk(n)):
+            coupled = True
+    if not coupled:
+        r.info('generate_result_code no longer guards generate_cfunction_call by self.is_temp: the obligation does not apply')
+        r.inst('temp:uncoupled')
+        return r
+    # statements of the function that assign self.is_temp, as one decision table over the function-type flags
+    bad, points = temp_table(fn)
+    for pt in points:
+        r.inst('temp:value-unset=%s:check=%s' % pt)
+    if bad is not None:
+        r.violate('ExprNodes.SimpleCallNode.analyse_c_function_call:is_temp', EXPRNODES, fn.lineno,
+                  'analyse_c_function_call does not mark the call as a temp for a function type with %s: generate_result_code emits the error test only for temps '
+                  '(`elif func_type.is_cfunction and self.is_temp`), so such calls are written inline by calculate_result_code without any exception test'
+                  % ', '.join('%s = %s' % kv for kv in sorted(bad.items()) if 'exception' in kv[0]))
+    pc = ast.parse('def analyse_c_function_call(self, env):\n    if self.type.is_pyobject:\n        self.is_temp = 1\n'
+                   '    elif func_type.exception_value is not None and func_type.exception_check:\n        self.is_temp = 1\n').body[0]
+    r.positive_control(temp_table(pc)[0] is not None, 'is_temp only when value AND check are present')
+    return r
+
+
+def temp_table(fn):
+    """-> (first flag assignment for which a function type with an exception value / check is not made a temp, or None; the (value unset, check) points seen)"""
+    from .sC35 import Table
+    stmts = [s for s in fn.body if any(isinstance(t, ast.Attribute) and t.attr == 'is_temp' and isinstance(t.value, ast.Name) and t.value.id == 'self'
+                                       for a in ast.walk(s) if isinstance(a, ast.Assign) for t in a.targets)]
+    if not stmts:
+        raise AnalysisError('C32-TEMP: analyse_c_function_call no longer assigns self.is_temp')
+
+    def mark_stmt(s):
+        if isinstance(s, ast.Assign) and any(isinstance(t, ast.Attribute) and t.attr == 'is_temp' for t in s.targets) and isinstance(s.value, ast.Constant):
+            return 'temp' if s.value.value else 'not-temp'
+        return None
+    t = Table(stmts, lambda c: None, mark_stmt=mark_stmt)
+    val_atoms = [a for a in t.atoms if re.fullmatch(r'\w+\.exception_value is None', a)]
+    chk_atoms = [a for a in t.atoms if re.fullmatch(r'\w+\.exception_check', a)]
+    if len(val_atoms) != 1 or len(chk_atoms) != 1:
+        raise AnalysisError('C32-TEMP: the is_temp decision of analyse_c_function_call tests %s; expected one test of <func_type>.exception_value and one of <func_type>.exception_check' % t.atoms)
+    bad = None
+    seen_pts = []
+    for val, marks in t.rows(max_atoms=14):
+        needs = (not val[val_atoms[0]]) or val[chk_atoms[0]]
+        pt = (val[val_atoms[0]], val[chk_atoms[0]])
+        if pt not in seen_pts:
+            seen_pts.append(pt)
+        if needs and 'temp' not in marks and bad is None:
+            bad = val
+    return bad, seen_pts
+
+
+# ---------------------------------------------------------------------------------------------- C32-ERRGIL
+def rule_errgil(ctx):
+    ix = ctx.index
+    r = Rule('C32-ERRGIL', 'error exit of FuncDefNode.generate_function_definitions: put_add_traceback / put_unraisable are emitted only after assure_gil(\'error\') in the same block', floor=2)
+    cls = ix.cls('Nodes', 'FuncDefNode')
+    got = ix.find_method(cls, 'generate_function_definitions')
+    if got is None:
+        raise AnalysisError('FuncDefNode.generate_function_definitions vanished')
+    fn = got[1]
+    for attr, line, ok in errgil_sites(fn):
+        key = 'Nodes.FuncDefNode.generate_function_definitions:%s' % attr
+        r.inst(key, sample='%s at line %d' % (attr, line))
+        if not ok:
+            r.violate(key, NODES, line, 'the error exit emits %s without a preceding assure_gil(\'error\') in its block: in a nogil function (error raised inside a `with gil` block) '
+                      'the traceback / unraisable report runs Python API calls without holding the GIL' % attr)
+    pc = ast.parse('def generate_function_definitions(self, env, code):\n    def assure_gil(code_path, code=code):\n        code.put_ensure_gil()\n'
+                   '    if exc_check:\n        assure_gil(\'error\')\n        code.put_add_traceback(name)\n    else:\n        code.put_unraisable(name)\n').body[0]
+    r.positive_control([a for a, _, ok in errgil_sites(pc) if not ok] == ['put_unraisable'], 'unraisable branch without assure_gil')
+    return r
+
+
+def errgil_sites(fn):
+    """-> [(emitter name, line, preceded by assure_gil('error') in its block)]"""
+    out = []
+    helper = None
+    for n in ast.walk(fn):
+        if isinstance(n, ast.FunctionDef) and n is not fn and any(isinstance(c, ast.Call) and getattr(c.func, 'attr', '') == 'put_ensure_gil' for c in ast.walk(n)):
+            helper = n.name
+    if helper is None:
+        raise AnalysisError('C32-ERRGIL: the local GIL helper (a nested function calling put_ensure_gil) of generate_function_definitions vanished')
+
+    def is_assure(st):
+        return any(isinstance(c, ast.Call) and isinstance(c.func, ast.Name) and c.func.id == helper and c.args and isinstance(c.args[0], ast.Constant) and c.args[0].value == 'error'
+                   for c in ast.walk(st)) and not isinstance(st, (ast.If, ast.For, ast.While, ast.FunctionDef))
+
+    def visit(stmts, ensured):
+        for st in stmts:
+            if isinstance(st, ast.FunctionDef):
+                continue
+            if is_assure(st):
+                ensured = True
+                continue
+            if isinstance(st, ast.If):
+                visit(st.body, ensured)
+                visit(st.orelse, ensured)
+                continue
+            if isinstance(st, (ast.For, ast.While, ast.With, ast.Try)):
+                visit(getattr(st, 'body', []), ensured)
+                continue
+            for c in ast.walk(st):
+                if isinstance(c, ast.Call) and isinstance(c.func, ast.Attribute) and c.func.attr in ('put_add_traceback', 'put_unraisable'):
+                    out.append((c.func.attr, c.lineno, ensured))
+    visit(fn.body, False)
+    return out
+
+
+# ---------------------------------------------------------------------------------------------- C32-ARGNAME
+def rule_argname(ctx, helpers):
+    from .iface import emitted_calls_fn, PLACEHOLDER
+    ix, cat = ctx.index, ctx.cat
+    r = Rule('C32-ARGNAME', 'emitted calls of the C32 helpers: an argument whose Python name is the name of a C parameter of the helper is passed at that parameter\'s position', floor=1)
+    for m in ix.modules.values():
+        if m.short not in ('Code', 'ExprNodes', 'Nodes', 'ModuleNode', 'PyrexTypes'):
+            continue
+        for qn, owner, fn in ix.functions_of(m):
+            for n, name, args, argph in emitted_calls_fn(fn):
+                if args is None or name not in helpers:
+                    continue
+                decls = [d for d in cat.lookup(name) if d.kind in ('func', 'proto')]
+                if not decls:
+                    continue
+                pn = decls[0].param_names()
+                if len(pn) != len(args):
+                    continue
+                key = '%s.%s:%s' % (m.short, qn, name)
+                r.inst(key, sample='%s emits %s' % (m.short + '.' + qn, name))
+                for i, (a, ph) in enumerate(zip(args, argph)):
+                    nm = None
+                    if a.strip() == PLACEHOLDER and len(ph) == 1 and isinstance(ph[0], ast.Name):
+                        nm = ph[0].id
+                    if nm and nm in pn and pn.index(nm) != i and pn[i] != nm:
+                        r.violate(key + ':' + nm, m.rel, n.lineno, '%s passes its `%s` as argument %d of %s, whose parameter `%s` is argument %d (argument %d is `%s`): the two flags are interchanged in the emitted call'
+                                  % (qn, nm, i + 1, name, nm, pn.index(nm) + 1, i + 1, pn[i]))
+    return r
